@@ -371,8 +371,14 @@ def m_to_string(it, argv, text):
         return v
     if isinstance(v, EnumV) and v.ename == 'Cow':
         return it.as_str(v.f[0])
-    if isinstance(v, int) and not isinstance(v, bool):
+    if isinstance(v, bool):
+        return str_of('true' if v else 'false')
+    if isinstance(v, int):
+        if 'char' in (_self_ty(text) or ''):
+            return str_of(chr(v))
         return str_of(str(v))
+    if isinstance(v, CharV):
+        return StrV((v.b,))
     if isinstance(v, OpaqueV) and v.kind == 'PathDisplay':
         return v.data
     if isinstance(v, (StructV, EnumV)):
@@ -998,6 +1004,8 @@ def m_into_iter(it, argv, text):
     v = argv[0]
     if isinstance(v, IterV):
         return v
+    if isinstance(v, StructV) and v.name in ('Range', 'RangeInclusive'):
+        return v
     if isinstance(v, VecV):
         return IterV('list', (v.e, 0))
     if isinstance(v, (RefV, SliceV)):
@@ -1171,6 +1179,18 @@ def drain(it, iv):
 def m_iter_next(it, argv, text):
     r = argv[0]
     iv = it.load(r.addr)
+    if isinstance(iv, StructV) and iv.name in ('Range', 'RangeInclusive'):
+        if iv.name == 'Range':
+            a, b = iv.f
+            if a >= b:
+                return NONE
+            it.store(r.addr, StructV('Range', (a + 1, b)))
+            return some(a)
+        a, b, done = iv.f
+        if done or a > b:
+            return NONE
+        it.store(r.addr, StructV('RangeInclusive', (a + 1, b, a == b)) if a < b else StructV('RangeInclusive', (a, b, True)))
+        return some(a)
     x, iv2 = iter_next(it, iv)
     it.store(r.addr, iv2)
     if x is None:
@@ -1556,7 +1576,8 @@ def run_format(it, fa):
             else:
                 s = debug_value(it, ref)
             if width is not None and not (n & 16):
-                pad = width - len(s)
+                nchars = sum(1 for b in s if not (isinstance(b, int) and (b & 0xC0) == 0x80))
+                pad = width - nchars
                 if pad > 0:
                     align_right = flags is not None and ((flags >> 29) & 3) == 1
                     s = (tuple([32] * pad) + tuple(s)) if align_right else (tuple(s) + tuple([32] * pad))
